@@ -13,6 +13,17 @@ let () =
   try while true do
     let line = input_line stdin in
     match String.split_on_char ' ' (String.trim line) |> List.filter (fun s -> s <> "") with
+    | id :: "table" :: vmin :: h :: _ ->
+        (* Face::Table over these bytes: plain / dropped / replaced by the decoded data *)
+        let t = unhex h in
+        let a = int_of_nat (announced t) in
+        if a > 200000 then Printf.printf "%s T SKIP\n" id else
+        let heap = List.init a (fun _ -> n_of_int 0xCD) in
+        (match table_open t (n_of_int (int_of_string vmin)) heap with
+         | TPlain -> Printf.printf "%s T P\n" id
+         | TReject _ -> Printf.printf "%s T R\n" id
+         | TTrap -> Printf.printf "%s TRAP\n" id
+         | TOk out -> Printf.printf "%s T K %d %s\n" id (List.length out) (hex out))
     | id :: osz :: "wrap" :: _ -> Printf.printf "%s F\n" id
     | id :: osz :: h :: _ ->
         let src = unhex h in
